@@ -84,7 +84,7 @@ class Filter(base.Filter):
             elif type == "Entity":
                 assert isinstance(token["name"], text_type)
 
-            elif type == "SerializerError":
+            elif type == "SerializeError":
                 assert isinstance(token["data"], text_type)
 
             else:
